@@ -29,8 +29,12 @@ type c02bMsg struct {
 }
 
 type c02bActor struct {
-	handled atomic.Int64
-	seen    []atomic.Int32
+	handled   atomic.Int64
+	seen      []atomic.Int32
+	inHandler atomic.Int64 // overlap word (C01): token of the invocation in progress
+	tok       atomic.Int64
+	overlaps  atomic.Int64
+	plain     int // touched only in Receive: the race detector sees unordered turns
 }
 
 func (a *c02bActor) PreStart(*Context) error { return nil }
@@ -40,15 +44,27 @@ func (a *c02bActor) Receive(ctx *ReceiveContext) {
 	if !ok {
 		return
 	}
+	tok := a.tok.Add(1)
+	if !a.inHandler.CompareAndSwap(0, tok) {
+		a.overlaps.Add(1)
+	}
+	a.plain++
 	if m.gate != nil {
 		<-m.gate
 	}
 	a.seen[m.id].Add(1)
 	a.handled.Add(1)
+	a.inHandler.CompareAndSwap(tok, 0)
 }
 
 // c02RunBoundary runs rounds on one system and reports violations to r.
 func c02RunBoundary(t *testing.T, r *verifrt.Run, rng *rand.Rand, cases int) {
+	c02RunBoundaryFor(t, r, rng, cases, false)
+}
+
+// c02RunBoundaryFor: forC01 selects which verdicts are reported (the overlap
+// monitors for C01, the wake-up / exactly-once ledger for C02).
+func c02RunBoundaryFor(t *testing.T, r *verifrt.Run, rng *rand.Rand, cases int, forC01 bool) {
 	for c := 0; c < cases; c++ {
 		budget := []int{1, 2, 4, 32}[rng.Intn(4)]
 		kind := []string{"unbounded", "segmented", "fair", "nonblocking", "priority"}[rng.Intn(5)]
@@ -56,8 +72,10 @@ func c02RunBoundary(t *testing.T, r *verifrt.Run, rng *rand.Rand, cases int) {
 		noise := rng.Intn(3)
 		rounds := 60
 		prev := runtime.GOMAXPROCS(procs)
+		tm := &vfTurnMonitor{}
+		uninstall := vfInstallTurnMonitor(tm)
 		sys := vfNewSystem(t, WithThroughputBudget(budget))
-		maxMsgs := rounds * (2*budget + 4)
+		maxMsgs := rounds*(2*budget+4+segmentSize) + 64
 		act := &c02bActor{seen: make([]atomic.Int32, maxMsgs+8)}
 		pid, err := sys.Spawn(context.Background(), "boundary", act, WithMailbox(vfNewMailbox(kind, maxMsgs+64, nil)), WithLongLived())
 		if err != nil {
@@ -65,9 +83,17 @@ func c02RunBoundary(t *testing.T, r *verifrt.Run, rng *rand.Rand, cases int) {
 		}
 		var hot []string
 		if noise > 0 {
-			hot = verifrt.StartNoise(verifrt.NoiseConfig{Seed: rng.Int63(), GoschedPerMille: 10, HotSites: noise,
-				Candidates: verifrt.SitesIn("dispatch_state.go", "actor/pid.go"), HotPerMille: 600,
-				MinDelay: 20 * time.Microsecond, MaxDelay: 400 * time.Microsecond, Budget: 400})
+			// the few yield sites of the dispatch state machine are the end-of-turn
+			// windows (reset / reclaim / schedule / take): with 1-3 hot sites out of
+			// ~6 candidates every window is held open in a good share of the cases
+			cands, nhot := verifrt.SitesIn("dispatch_state.go"), noise+1
+			if kind == "segmented" && rng.Intn(2) == 0 {
+				// the consumer's window between reading the write index and the next link
+				cands, nhot = verifrt.SitesIn("dispatch_state.go", "unbounded_segmented_mailbox.go"), noise+3
+			}
+			hot = verifrt.StartNoise(verifrt.NoiseConfig{Seed: rng.Int63(), GoschedPerMille: 10, HotSites: nhot,
+				Candidates: cands, HotPerMille: 700,
+				MinDelay: 20 * time.Microsecond, MaxDelay: 300 * time.Microsecond, Budget: 2000})
 		}
 		key := fmt.Sprintf("boundary budget=%d mb=%s procs=%d noise=%d", budget, kind, procs, noise)
 		id := 0
@@ -79,6 +105,20 @@ func c02RunBoundary(t *testing.T, r *verifrt.Run, rng *rand.Rand, cases int) {
 			k := []int{budget - 1, budget, budget, budget + 1, 2 * budget}[rng.Intn(5)]
 			if k < 1 {
 				k = 1
+			}
+			segRound := false
+			if seg, ok := pid.mailbox.(*UnboundedSegmentedMailbox); ok && rng.Intn(2) == 0 {
+				// segment boundary: size the backlog so that it fills the tail segment
+				// exactly; the racing Tell then lands in slot 0 of a freshly linked
+				// segment (the previous round is quiescent, the write index is exact)
+				// (or, one time in two, leaves one free slot: the first racer takes the
+				// last slot while the second one links the successor)
+				if w := int(seg.tail.Load().writeIdx.Load()); w < segmentSize && id+(segmentSize-w)+8 < maxMsgs {
+					if k = segmentSize - w - rng.Intn(2); k < 1 {
+						k = 1
+					}
+					segRound = true
+				}
 			}
 			gate := make(chan struct{})
 			for i := 0; i < k; i++ {
@@ -92,6 +132,9 @@ func c02RunBoundary(t *testing.T, r *verifrt.Run, rng *rand.Rand, cases int) {
 				}
 			}
 			nr := 1 + rng.Intn(2)
+			if segRound {
+				nr = 2
+			}
 			var wg sync.WaitGroup
 			racers := make([]*c02bMsg, nr)
 			for i := range racers {
@@ -102,8 +145,21 @@ func c02RunBoundary(t *testing.T, r *verifrt.Run, rng *rand.Rand, cases int) {
 			for i := 0; i < nr; i++ {
 				wg.Add(1)
 				spin := rng.Intn(k*40 + 50)
+				// two racers in three aim at the end of the turn: they fire when the
+				// handler count shows the backlog is (almost) drained, so the Tell lands
+				// between the worker's last empty Dequeue and its Idle transition
+				target := int64(-1)
+				switch rng.Intn(3) {
+				case 1:
+					target, spin = expected, rng.Intn(8)
+				case 2:
+					target, spin = expected-1, rng.Intn(30)
+				}
 				go func(m *c02bMsg, spin int) {
 					defer wg.Done()
+					for w := 0; target >= 0 && act.handled.Load() < target && w < 5000000; w++ {
+						runtime.Gosched()
+					}
 					for j := 0; j < spin; j++ {
 						runtime.Gosched()
 					}
@@ -118,23 +174,67 @@ func c02RunBoundary(t *testing.T, r *verifrt.Run, rng *rand.Rand, cases int) {
 			raced += nr
 			// all senders have returned: wait for completion or for the structural stuck state
 			stable := 0
+			lostStable := 0
+			waitStart := time.Now()
 			for {
 				if act.handled.Load() >= expected {
 					break
 				}
-				if pid.schedState.Load() == dispatchIdle && !pid.mailbox.IsEmpty() {
-					stable++
-					if stable >= 50 {
-						// re-confirm after a pause: still idle, still non-empty, nothing handled meanwhile
-						h := act.handled.Load()
-						time.Sleep(20 * time.Millisecond)
-						if pid.schedState.Load() == dispatchIdle && !pid.mailbox.IsEmpty() && act.handled.Load() == h {
-							stuck = fmt.Sprintf("round %d: %d accepted, %d handled; dispatch state Idle with a non-empty mailbox after every Tell returned (backlog k=%d, racers=%d)", round, expected, h, k, nr)
-						}
-						break
-					}
-				} else {
+				st := pid.schedState.Load()
+				empty := pid.mailbox.IsEmpty() && pid.systemMailbox.IsEmpty()
+				switch {
+				case st == dispatchIdle && empty:
+					// idle, nothing queued, yet accepted messages were never handled
+					lostStable++
 					stable = 0
+					if lostStable >= 200 {
+						lostStable = 0
+						h := act.handled.Load()
+						frozen, why := vfStructurallyStuck(func() bool {
+							return pid.schedState.Load() == dispatchIdle && pid.mailbox.IsEmpty() && pid.systemMailbox.IsEmpty() && pid.schedState.Load() == dispatchIdle && act.handled.Load() == h && h < expected
+						}, 30*time.Second)
+						if why != "" {
+							r.Inconclusive("C02 boundary: %s round %d: %s", key, round, why)
+						}
+						if frozen {
+							lost := 0
+							for i := 0; i < id && i < len(act.seen); i++ {
+								if act.seen[i].Load() == 0 {
+									lost++
+								}
+							}
+							if !forC01 {
+								r.Violation("accepted-message-lost:mailbox-empty-and-idle:boundary:"+kind, map[string]any{"case": key, "round": round, "accepted": expected, "handled": h, "never_handled_ids": lost, "backlog": k, "hot_sites": hot})
+							}
+							expected = h // keep going with what is left
+						}
+					}
+				case st == dispatchIdle && !empty:
+					stable++
+					lostStable = 0
+					if stable >= 50 {
+						stable = 0
+						h := act.handled.Load()
+						frozen, why := vfStructurallyStuck(func() bool {
+							return pid.schedState.Load() == dispatchIdle && !pid.mailbox.IsEmpty() && act.handled.Load() == h
+						}, 30*time.Second)
+						if why != "" {
+							r.Inconclusive("C02 boundary: %s round %d: %s", key, round, why)
+						}
+						if frozen {
+							stuck = fmt.Sprintf("round %d: %d accepted, %d handled; dispatch state Idle with a non-empty mailbox, every Tell returned and no goroutine inside the dispatch path (backlog k=%d, racers=%d)", round, expected, h, k, nr)
+						}
+					}
+				default:
+					stable, lostStable = 0, 0
+				}
+				if stuck != "" {
+					break
+				}
+				if time.Since(waitStart) > 120*time.Second {
+					r.Inconclusive("C02 boundary watchdog: %s round %d handled=%d expected=%d state=%s", key, round, act.handled.Load(), expected, vfSchedStateName(pid))
+					expected = act.handled.Load()
+					break
 				}
 				runtime.Gosched()
 			}
@@ -142,18 +242,28 @@ func c02RunBoundary(t *testing.T, r *verifrt.Run, rng *rand.Rand, cases int) {
 		if noise > 0 {
 			verifrt.StopNoise()
 		}
-		if stuck != "" {
+		if stuck != "" && !forC01 {
 			// the message is revived only by another Tell: show that too
 			_ = Tell(ctx, pid, &c02bMsg{id: id})
 			revived := verifrt.WaitUntil(2*time.Second, func() bool { return act.handled.Load() >= expected+1 })
 			r.Violation("lost-wakeup:idle-with-pending:boundary:"+kind, map[string]any{"case": key, "stuck": stuck, "revived_by_a_later_tell": revived, "hot_sites": hot})
 		}
-		for i := 0; i < id && i < len(act.seen); i++ {
+		for i := 0; i < id && i < len(act.seen) && !forC01; i++ {
 			if n := act.seen[i].Load(); n > 1 {
 				r.Violation("duplicate-handling:boundary:"+kind, map[string]any{"case": key, "id": i, "times": n})
 				break
 			}
 		}
+		if forC01 {
+			if n := act.overlaps.Load(); n > 0 {
+				r.Violation("handler-overlap:boundary:"+kind, map[string]any{"case": key, "count": n, "hot_sites": hot})
+			}
+			if n := tm.overlaps.Load(); n > 0 {
+				r.Violation("turn-overlap:boundary:"+kind, map[string]any{"case": key, "count": n, "hot_sites": hot})
+			}
+			r.Count("boundary_turns_observed", tm.enters.Load())
+		}
+		uninstall()
 		r.Case(key+"/"+fmt.Sprint(c), true)
 		r.Count("boundary_rounds", int64(rounds))
 		r.Count("boundary_racing_tells", int64(raced))
